@@ -16,10 +16,10 @@ import time
 
 REPO = os.environ.get('VERIF_REPO', '/repo')
 VERIF = os.path.dirname(os.path.abspath(__file__))
-BUILD = os.path.join(VERIF, 'build')
+BUILD = os.environ.get('VERIF_BUILD', os.path.join(VERIF, 'build'))
 HARNESS = os.path.join(VERIF, 'harness')
-EVIDENCE = os.path.join(VERIF, 'evidence')
-REPLAYDIR = os.path.join(VERIF, 'replay')
+EVIDENCE = os.environ.get('VERIF_EVIDENCE', os.path.join(VERIF, 'evidence'))
+REPLAYDIR = os.environ.get('VERIF_REPLAYDIR', os.path.join(VERIF, 'replay'))
 KNOWN_FINDINGS = os.path.join(VERIF, 'known_findings.txt')
 TIMEOUT_SCALE = float(os.environ.get('VERIF_TIMEOUT_SCALE', '1.0'))
 JOBS = int(os.environ.get('VERIF_JOBS', str(max(2, (os.cpu_count() or 4) - 2))))
@@ -47,7 +47,7 @@ class Obl:
     def __init__(self, name, harness, units=(), stubs=('log_stub.c',), defines=(), seams=None,
                  unwind=None, unwindset=(), flags=(), timeout=300, ladder=None, desc='',
                  bound='', assumes=(), tiers=('quick', 'thorough'), function='harness',
-                 mem_gb=12, backend=None, expect_known=None, weight=1, native_defs=(), objbits=None):
+                 mem_gb=12, backend=None, expect_known=None, weight=1, native_defs=(), objbits=None, unwind_text=()):
         self.name = name
         self.harness = harness            # file under /verif/harness
         self.units = list(units)          # files under /repo/src (the real code that is encoded)
@@ -72,7 +72,7 @@ class Obl:
         self.native_defs = list(native_defs)
         self.objbits = objbits
         self.units_note = []
-        self.unwind_text = []   # [(function, regex on the loop's source line, bound)]: resolved to loop ids after the build
+        self.unwind_text = list(unwind_text)   # [(function, regex on the loop's source line, bound)]: resolved to loop ids after the build
 
 
 def sh(cmd, cwd=None, timeout=None, env=None):
